@@ -1,6 +1,6 @@
 INFO = {
     "level": "proof",
-    "level_text": 'Inductive invariant Inv02 (for every station and plug type present: 0 <= free <= installed, installed - free = number of vehicles whose activity holds that plug — directly or through the base it serves —, queue counter = number of vehicles queueing there; for every base: 0 <= free stalls <= total, total - free = vehicles parked or charging there) proved preserved by Update.apply_update for all states. Chain of contracts, each discharged from the real body: ChargerState/Base/Station operations (whole-value postconditions) -> simulation_state_ops -> enter/exit of the 11 non-pooling activities (delta contracts generated from the state descriptor table) -> transition_previous_to_next (recombination with lemma L1) -> charge/move/_perform_update (counts untouched) -> update of each activity -> step_vehicle -> the vehicle-update loop, the two loops of apply_instructions, the driver-update fold (inductive loop invariants) -> StepSimulation.update -> Update.apply_update.',
+    "level_text": 'DispatchPoolingTrip._perform_update and .update are verified from their bodies (create_routes assumed as a router interface). Inductive invariant Inv02 (for every station and plug type present: 0 <= free <= installed, installed - free = number of vehicles whose activity holds that plug — directly or through the base it serves —, queue counter = number of vehicles queueing there; for every base: 0 <= free stalls <= total, total - free = vehicles parked or charging there) proved preserved by Update.apply_update for all states. Chain of contracts, each discharged from the real body: ChargerState/Base/Station operations (whole-value postconditions) -> simulation_state_ops -> enter/exit of the 11 non-pooling activities (delta contracts generated from the state descriptor table) -> transition_previous_to_next (recombination with lemma L1) -> charge/move/_perform_update (counts untouched) -> update of each activity -> step_vehicle -> the vehicle-update loop, the two loops of apply_instructions, the driver-update fold (inductive loop invariants) -> StepSimulation.update -> Update.apply_update.',
     "level_note": "counts are an uninterpreted function of the vehicles map constrained by L1 instances (Lean); a base's station_id never changes (ghost function, preserved invariant); ServicingPoolingTrip's _perform_update / update and dispatch_ops.create_routes (the other pooling functions are verified), instruction generators and pre-step updates enter through assumed interface contracts (listed); floats as reals; initial states built by initialisation code are assumed to satisfy Inv02.",
 }
 
